@@ -489,12 +489,103 @@ pub fn run(cfg: &Config, ex: &mut Explorer, rng: &mut Rng) {
             exercise(ex, &label, &bytes, false);
         }
     }
+    klippa_unicode_runs(ex);
     let errs = ERRS.with(|c| std::mem::take(&mut *c.borrow_mut()));
     for e in errs {
         let key = if e == "draw:ok" { "draw-ok" } else if e.starts_with("draw:") { "draw-hint-error" } else { "instance-error" };
         ex.count(&format!("synth:{key}"));
     }
     ex.notes.push(format!("synthetic fonts: {n_fonts} ({:.1}s)", t0.elapsed().as_secs_f64()));
+}
+
+/// klippa on long consecutive code point runs: a font whose cmap 12 maps U+1000.. to consecutive glyphs
+/// and whose cmap 14 has default UVS ranges covering them (full 256-entry ranges, adjacent and not,
+/// starting at 0 / in the middle), subset with plans that request runs of 1 .. 600 consecutive code
+/// points plus the variation selector
+pub fn klippa_unicode_runs(ex: &mut Explorer) {
+    use read_fonts::collections::IntSet;
+    let n_glyphs = 640usize;
+    let spec = Spec {
+        upem: 1000,
+        advances: (0..n_glyphs).map(|_| (500u16, 0i16)).collect(),
+        glyphs: (0..n_glyphs).map(|i| if i < 2 { triangle(vec![], false) } else { Glyph { points: vec![], ends: vec![], instructions: vec![] } }).collect(),
+        cvt: vec![],
+        fpgm: vec![],
+        prep: vec![],
+        ascender: 800,
+        descender: -200,
+    };
+    let base = build(&spec);
+    for (name, first_cp, ranges) in [
+        ("adjacent-full", 0x1000u32, vec![(0x1000u32, 255u8), (0x1100, 255), (0x1200, 100)]),
+        ("from-zero", 0u32, vec![(0, 255), (0x100, 255)]),
+        ("gaps", 0x1000, vec![(0x1000, 0), (0x1002, 1), (0x1010, 255), (0x1200, 3)]),
+    ] {
+        let mut sub14: Vec<u8> = vec![];
+        p16(&mut sub14, 14);
+        p32(&mut sub14, (10 + 11 + 4 + 4 * ranges.len()) as u32);
+        p32(&mut sub14, 1);
+        sub14.extend_from_slice(&0xFE00u32.to_be_bytes()[1..]);
+        p32(&mut sub14, 21);
+        p32(&mut sub14, 0);
+        p32(&mut sub14, ranges.len() as u32);
+        for (st, ac) in &ranges {
+            sub14.extend_from_slice(&st.to_be_bytes()[1..]);
+            sub14.push(*ac);
+        }
+        let mut sub12: Vec<u8> = vec![];
+        p16(&mut sub12, 12);
+        p16(&mut sub12, 0);
+        p32(&mut sub12, 28);
+        p32(&mut sub12, 0);
+        p32(&mut sub12, 1);
+        p32(&mut sub12, first_cp);
+        p32(&mut sub12, first_cp + n_glyphs as u32 - 2);
+        p32(&mut sub12, 1);
+        let mut cmap: Vec<u8> = vec![];
+        p16(&mut cmap, 0);
+        p16(&mut cmap, 2);
+        p16(&mut cmap, 0);
+        p16(&mut cmap, 5);
+        p32(&mut cmap, 20);
+        p16(&mut cmap, 3);
+        p16(&mut cmap, 10);
+        p32(&mut cmap, 20 + sub14.len() as u32);
+        cmap.extend_from_slice(&sub14);
+        cmap.extend_from_slice(&sub12);
+        let Ok(font) = FontRef::new(&base) else { return };
+        let mut fb = FontBuilder::new();
+        for rec in font.table_directory.table_records() {
+            if rec.tag() != Tag::new(b"cmap") {
+                if let Some(d) = font.table_data(rec.tag()) {
+                    fb.add_raw(rec.tag(), d.as_bytes().to_vec());
+                }
+            }
+        }
+        fb.add_raw(Tag::new(b"cmap"), cmap);
+        let bytes = fb.build();
+        let Ok(font) = FontRef::new(&bytes) else { continue };
+        for run in [1u32, 2, 255, 256, 257, 300, 512, 513, 600] {
+            for with_selector in [true, false] {
+                let label = || format!("synth=klippa-unicode-runs cmap14={name} ranges={ranges:?} run={run} from={first_cp:#x} selector={with_selector}");
+                ex.op(&label, "klippa plan+subset", &mut || {
+                    let gs: IntSet<GlyphId> = IntSet::empty();
+                    let mut unicodes: IntSet<u32> = IntSet::empty();
+                    unicodes.insert_range(first_cp..=first_cp + run - 1);
+                    if with_selector {
+                        unicodes.insert(0xFE00);
+                    }
+                    let empty_tags: IntSet<Tag> = IntSet::empty();
+                    let mut all_tags: IntSet<Tag> = IntSet::empty();
+                    all_tags.invert();
+                    let name_ids = IntSet::empty();
+                    let langs: IntSet<u16> = IntSet::empty();
+                    let plan = klippa::Plan::new(&gs, &unicodes, &font, klippa::SubsetFlags::default(), &empty_tags, &all_tags, &all_tags, &name_ids, &langs);
+                    let _ = klippa::subset_font(&font, &plan);
+                });
+            }
+        }
+    }
 }
 
 /// synthetic base fonts for the field-extremes family (explore.rs / fields.rs): a metric font, a
